@@ -55,9 +55,9 @@ pub fn plan(prop: &str, tier: &str) -> Vec<RunSpec> {
         "C15" => cross(&[FUB, FU, FOB, FO, MB, MU, BU, BO, TBU, TBO, FEC], &[(Cap, 4), (Generic, 2), (Wrap, 1), (Groups, 1)], &mut p),
         "C16" => cross(&[BO, TBO], &[(Flood, 1), (Stall, 4), (Generic, 3), (Budget, 1), (Wrap, 1)], &mut p),
         "C17" => cross(&[FUB, FU, FOB, FO, MB, MU, BU, BO, TBU, TBO], &[(Generic, 4), (Cap, 1), (Stall, 1), (Groups, 1)], &mut p),
-        "C18" => cross(&[FUB, FU, FO, MB, MU, BU, TBU, FEC, JA, TJA], &[(Flood, 1), (Oscillate, 3), (Conveyor, 3), (Generic, 2), (WakerLife, 1), (Groups, 2), (Stall, 3)], &mut p),
+        "C18" => cross(&[FUB, FU, FO, MB, MU, BU, TBU, FEC, JA, TJA], &[(Flood, 1), (Oscillate, 3), (Conveyor, 3), (Generic, 2), (WakerLife, 1), (Groups, 2), (Stall, 3), (Tide, 1)], &mut p),
         // everything: used for determinism proofs and smoke runs
-        _ => cross(all, &[(Generic, 1), (Budget, 1), (Groups, 1), (Starve, 1), (Oscillate, 1), (Wrap, 1), (Cap, 1), (StaleBacklog, 1), (Stall, 1), (AfterReady, 1), (WakerLife, 1), (TaskSwap, 1), (Conveyor, 1), (Flood, 1)], &mut p),
+        _ => cross(all, &[(Generic, 1), (Budget, 1), (Groups, 1), (Starve, 1), (Oscillate, 1), (Wrap, 1), (Cap, 1), (StaleBacklog, 1), (Stall, 1), (AfterReady, 1), (WakerLife, 1), (TaskSwap, 1), (Conveyor, 1), (Flood, 1), (Tide, 1)], &mut p),
     }
     p
 }
